@@ -40,6 +40,8 @@ type Prog struct {
 	carriedInfo  map[string]map[int]carriedInfo
 	lastPathKey  string
 	nn           *NN
+	alias        map[*ssa.Function]string // renamed functions -> the name they had on the pinned tree
+	Renamed      []string
 }
 
 type LoadConfig struct {
@@ -197,6 +199,7 @@ func Load(dir string, cfg LoadConfig) *Prog {
 		}
 		p.Funcs = append(p.Funcs, fn)
 	}
+	p.applyAliases()
 	sort.Slice(p.Funcs, func(i, j int) bool { return p.FuncName(p.Funcs[i]) < p.FuncName(p.Funcs[j]) })
 	for _, fn := range p.Funcs {
 		p.byName[p.FuncName(fn)] = fn
@@ -222,6 +225,9 @@ func fnPkg(fn *ssa.Function) *ssa.Package {
 func (p *Prog) FuncName(fn *ssa.Function) string {
 	if fn == nil {
 		return "<nil>"
+	}
+	if a, ok := p.alias[fn]; ok {
+		return a
 	}
 	if par := fn.Parent(); par != nil {
 		n := fn.Name()
